@@ -353,3 +353,108 @@ def r_atan2_corners(rule, root=None):
                 sorted("(%s, %s)" % g for g in got)), A.where(IV, cs[0]))
         else:
             rule.ok("Interval::atan2 y %s x %s evaluates the corners of its extreme angles" % (yc, xc), file=IV, line=cs[0]["ln"])
+
+
+# ---------------------------------------------------------------------------------------------------------------
+# Interval::rem_euclid: the "both ends in one period" shortcut at quotients that overflow
+
+
+def _fl(op, x):
+    import math
+
+    if x != x:
+        return x
+    if op in ("floor", "ceil", "trunc", "round"):
+        if x in (float("inf"), float("-inf")):
+            return x
+        return float({"floor": math.floor, "ceil": math.ceil, "trunc": math.trunc, "round": round}[op](x))
+    if op == "fract":
+        if x in (float("inf"), float("-inf")):
+            return float("nan")
+        return x - math.trunc(x)
+    if op == "abs":
+        return abs(x)
+    raise KeyError(op)
+
+
+def _guard_eval(e, env):
+    """value of a boolean / f32 expression under IEEE semantics for the given locals; KeyError when outside the subset"""
+    e = A.strip(e)
+    k = e.get("k")
+    if k == "Path":
+        return env[A.ident(e)]
+    if k == "Lit":
+        return float(str(e.get("v")).replace("_", "").replace("f32", ""))
+    if k == "Unary":
+        v = _guard_eval(e["e"], env)
+        if e.get("op") == "!":
+            return not v
+        if e.get("op") == "-":
+            return -v
+        raise KeyError(e.get("op"))
+    if k == "MethodCall":
+        v = _guard_eval(e["recv"], env)
+        m = e["method"]
+        if m == "is_nan":
+            return v != v
+        if m == "is_finite":
+            return v == v and v not in (float("inf"), float("-inf"))
+        if m == "is_infinite":
+            return v in (float("inf"), float("-inf"))
+        if not e["args"]:
+            return _fl(m, v)
+        raise KeyError(m)
+    if k == "Binary":
+        op = e["op"]
+        if op == "&&":
+            return bool(_guard_eval(e["left"], env)) and bool(_guard_eval(e["right"], env))
+        if op == "||":
+            return bool(_guard_eval(e["left"], env)) or bool(_guard_eval(e["right"], env))
+        a, b = _guard_eval(e["left"], env), _guard_eval(e["right"], env)
+        if op in ("==", "!=", "<", ">", "<=", ">="):
+            return {"==": a == b, "!=": a != b, "<": a < b, ">": a > b, "<=": a <= b, ">=": a >= b}[op]
+        if op in ("+", "-", "*"):
+            r = {"+": lambda: a + b, "-": lambda: a - b, "*": lambda: a * b}[op]()
+            return r
+        raise KeyError(op)
+    raise KeyError(k)
+
+
+def r_rem_euclid_shortcut(rule, root=None):
+    """`Interval::rem_euclid` answers [lower mod m, upper mod m] when both quotients lie in one period and the lower
+    one is not a multiple.  For a huge box the quotients overflow to infinity (or are NaN); they then say nothing about
+    periods, and the shortcut must be refused - the test has to come out false for a, b in {+-inf, NaN}."""
+    fn = A.find_fn(IV, "rem_euclid", self_ty="Interval", root=root)
+    target = None
+    for i in A.find(fn["body"], "If"):
+        t = A.unparse(i["then"]).replace(" ", "")
+        if "self.lower.rem_euclid(" in t and "self.upper.rem_euclid(" in t and "Interval::new" in t:
+            target = i
+    if target is None:
+        rule.skip("Interval::rem_euclid", "no same-period shortcut found", count=True)
+        return
+    # the names the quotients were given
+    names = []
+    for l_ in A.find(fn["body"], "Let"):
+        it = A.unparse(l_.get("init") or {}).replace(" ", "")
+        if l_.get("init") is not None and re.fullmatch(r"\(?self\.(lower|upper)/\w+\.(lower|upper)\)?", it):
+            names.append((A.binding_name(l_["pat"]), "lower" in it.split("/")[0]))
+    lo = [n for n, is_lo in names if is_lo]
+    hi = [n for n, is_lo in names if not is_lo]
+    if len(lo) != 1 or len(hi) != 1:
+        rule.skip("Interval::rem_euclid", "the two quotients are not named by simple lets", count=True)
+        return
+    inf, nan = float("inf"), float("nan")
+    bad = None
+    try:
+        for a, b in ((inf, inf), (-inf, -inf), (-inf, inf), (nan, nan), (1.5, inf), (-inf, 1.5), (nan, 1.5), (1.5, nan)):
+            if _guard_eval(target["cond"], {lo[0]: a, hi[0]: b}):
+                bad = (a, b)
+                break
+    except KeyError as ex:
+        rule.skip("Interval::rem_euclid shortcut", "its test uses `%s`, outside the evaluated subset" % ex, count=True)
+        return
+    if bad:
+        rule.bad("rem_euclid|overflow", "Interval::rem_euclid takes its same-period shortcut under `%s`, which holds for quotients (%s, %s): when |x| / m overflows the quotients carry no period information, and the shortcut returns two unrelated remainders instead of [0, m]" % (A.unparse(target["cond"])[:80], bad[0], bad[1]), A.where(IV, target))
+    else:
+        rule.ok("Interval::rem_euclid refuses its same-period shortcut for infinite or NaN quotients", file=IV, line=target["ln"])
